@@ -110,6 +110,9 @@ func quorumCases(np namedPolicy, maxMinimal, maxNonMinimal, maxUnq int, rot int)
 		panic(err)
 	}
 	mn, nm, un := quorumsOf(as, holders(np.Pol), 2)
+	if maxMinimal < 0 { // every qualified quorum, minimal and non-minimal
+		maxMinimal, maxNonMinimal = len(mn), len(nm)
+	}
 	out := []quorumCase{}
 	pick := func(sets [][]ID, max int, kind string) {
 		if len(sets) == 0 {
@@ -126,6 +129,100 @@ func quorumCases(np namedPolicy, maxMinimal, maxNonMinimal, maxUnq int, rot int)
 	pick(mn, maxMinimal, "minimal")
 	pick(nm, maxNonMinimal, "nonminimal")
 	pick(un, maxUnq, "unqualified")
+	return out
+}
+
+// replicated: the span programmes in which holders own several rows and different holders hold EQUAL share components (CNF /
+// replicated sharing) or one holder appears in several leaves (gate tree). Honest members of a quorum then produce equal
+// partial-signature components, which must not be mistaken for a replay.
+var replicatedPolicies = []string{"cnf3", "cnf4", "gate3"}
+
+func isReplicated(np namedPolicy) bool {
+	for _, n := range replicatedPolicies {
+		if n == np.Name {
+			return true
+		}
+	}
+	return false
+}
+
+// planItem is one (policy, quorum, key source) of a protocol's case list.
+type planItem struct {
+	np     namedPolicy
+	q      quorumCase
+	srcIdx int
+	pi, qi int
+}
+
+func rotatedPolicies(shift int) []namedPolicy {
+	out := []namedPolicy{}
+	for i := range signPolicies {
+		out = append(out, policyByName(signPolicies[(i+shift+int(seed))%len(signPolicies)]))
+	}
+	return out
+}
+
+// planCheap (protocols that cost milliseconds per run): every policy; a replicated policy gets EVERY qualified quorum (minimal and
+// non-minimal) on keys from trusted dealing and from the Gennaro DKG (thorough: also Canetti and the runner API).
+func planCheap(shift int) []planItem {
+	out := []planItem{}
+	for pi, np := range rotatedPolicies(shift) {
+		rot := pi + shift + int(seed)
+		if isReplicated(np) {
+			srcs := []int{0, 1}
+			if thor {
+				srcs = []int{0, 1, 2, 3}
+			}
+			for _, src := range srcs {
+				for qi, q := range quorumCases(np, -1, 0, lim(2, 99), rot) {
+					out = append(out, planItem{np, q, src, pi, qi + src})
+				}
+			}
+			continue
+		}
+		for qi, q := range quorumCases(np, lim(2, 10), lim(1, 2), lim(3, 99), rot) {
+			src := pi + shift + int(seed)
+			if thor {
+				src += qi % 2
+			}
+			out = append(out, planItem{np, q, src, pi, qi})
+		}
+	}
+	return out
+}
+
+// planCostly (protocols that cost seconds per run). quick: a window of nWin policies that moves with the seed (one minimal
+// quorum each, a non-minimal one on every second policy, two unqualified ones) plus one replicated policy on a Gennaro key with a
+// minimal, a non-minimal and an unqualified quorum. thorough: every policy; replicated policies with every qualified quorum on
+// dealt and Gennaro keys.
+func planCostly(nWin, shift int) []planItem {
+	out := []planItem{}
+	if !thor {
+		for pi, np := range policyWindow(nWin, shift) {
+			for qi, q := range quorumCases(np, 1, 1-(pi%2), 2, pi+shift+int(seed)) {
+				out = append(out, planItem{np, q, pi + shift + int(seed), pi, qi})
+			}
+		}
+		np := policyByName(replicatedPolicies[(shift+int(seed))%len(replicatedPolicies)])
+		for qi, q := range quorumCases(np, 1, 1, 1, shift+int(seed)) {
+			out = append(out, planItem{np, q, 1, nWin, qi})
+		}
+		return out
+	}
+	for pi, np := range rotatedPolicies(shift) {
+		rot := pi + shift + int(seed)
+		if isReplicated(np) {
+			for _, src := range []int{0, 1} {
+				for qi, q := range quorumCases(np, -1, 0, 99, rot) {
+					out = append(out, planItem{np, q, src, pi, qi + src})
+				}
+			}
+			continue
+		}
+		for qi, q := range quorumCases(np, 4, 1, 99, rot) {
+			out = append(out, planItem{np, q, pi + shift + int(seed) + qi%2, pi, qi})
+		}
+	}
 	return out
 }
 
@@ -154,9 +251,30 @@ func newSignEv(protoName, variant, group string, np namedPolicy, keysrc string, 
 	return map[string]any{"a": "sign",
 		"k":     fmt.Sprintf("sign:%s:%s:%s:%s:%s:%s:%s:%s:%s", protoName, variant, group, keysrc, np.Name, q.kind, idsName(q.ids), api, msgClass),
 		"proto": protoName, "variant": variant, "group": group, "keysrc": keysrc, "pol": np.Pol, "polName": np.Name, "holders": ad.IDsU(holders(np.Pol)),
-		"quorum": ad.IDsU(q.ids), "qkind": q.kind, "api": api, "msgClass": msgClass, "msgLen": len(msgOf(msgClass)),
+		"quorum": ad.IDsU(q.ids), "qkind": q.kind, "api": api, "msgClass": msgClass, "msgLen": len(msgOf(msgClass)), "gbits": groupBits(group),
 		"ctor": []any{}, "started": false, "rejects": []any{}, "stop": 0, "completed": []uint64{}, "outs": []any{}, "outErrs": []any{}, "class": "",
 		"signed": false}
+}
+
+// groupBits: the bit length of the group order (the 1/q guards of the specification only excuse refusals on small groups).
+func groupBits(name string) int {
+	switch name {
+	case "k256":
+		return gK256.group.Order().Big().BitLen()
+	case "p256":
+		return gP256.group.Order().Big().BitLen()
+	case "ed25519":
+		return gEd.group.Order().Big().BitLen()
+	case "pallas":
+		return gPallas.group.Order().Big().BitLen()
+	case "vesta":
+		return gVesta.group.Order().Big().BitLen()
+	case "blsG1":
+		return gG1.group.Order().Big().BitLen()
+	case "blsG2":
+		return gG2.group.Order().Big().BitLen()
+	}
+	panic("unknown group " + name)
 }
 
 func ctorJ(id ID, err error) map[string]any {
